@@ -1040,8 +1040,9 @@ M.contract(P_LDDV + ':ListDdv.value_of_any_dependency',
 
 
 # ListSdv.resolve accumulates the resolved elements with list.extend over pieces of unknown length (a mutable list
-# of objects): out of reach of the engine -> bounded stand-in, together with an end-to-end comparison of real
-# string / list / path symbols against textual substitution.
+# of objects).  Extension L8: now PROVED for any number of elements with pieces of any length
+# (contracts/C08b_list_flatmap.py, flat-map vocabulary `is_flat_concat`); the bounded stand-in below is kept as a
+# labelled cross-check -- an end-to-end comparison of real string / list / path symbols against textual substitution.
 
 @M.bounded('substitution: ListSdv.resolve / StringSdv.resolve against textual substitution')
 def _bounded_substitution(ctx):
